@@ -418,6 +418,240 @@ def c18_case(args):
     return res
 
 
+# ------------------------------------------------------------------------------------------------ static vs reflection-loaded
+def c18_dyn_case(args):
+    """'The statically generated and the reflection-loaded CAN schemas give the same answers': both wrappers through fcp::can::Can
+    with real JSON values (nothing modelled; native models only for out-of-line libstdc++/libc, verif/cxxnatives.py)."""
+    schema, tier = args
+    add_repo_paths()
+    from .. import cxxnatives
+    from .dyn_checks import field_aligned_bytes, leaf_bits
+
+    res = new_result()
+    known = Known("C18")
+    binds = bindings_of(schema)
+    desc = "; ".join(f"{n}(id={i}, bus={b!r})" for n, i, b in binds)
+    structs = [n for n, _ in schema.structs if n in POOL]
+    base = {"schema_text": schema.text(), "property": "C18", "structs": structs,
+            "schema": {"structs": schema.structs, "enums": schema.enums, "top": schema.top}}
+    with Scratch() as d:
+        ob = f"{desc}|dynamic|compiles+loads"
+        res["obligations"].append(ob)
+        dtext = ""
+        try:
+            from ..prime import prime, decoy_text
+            dtext = decoy_text(schema)
+            prime(dtext, ("cpp",))
+            fcp = cxx.generate_cpp(schema.text(), d)
+            binv = cxx.reflection_binary(fcp)
+            open(os.path.join(d, "harness.cpp"), "w").write(cxx.can_dyn_harness_source(schema, structs))
+            ok, ll = cxx.compile_to_ir(d)
+        except Exception as e:
+            ok, ll, binv = False, f"{type(e).__name__}: {e}", b""
+        base["decoy_text"] = dtext
+        if not ok:
+            res["inconclusive"].append(f"{ob}: harness TU did not compile: {str(ll)[-300:]}")
+            return res
+        mod = llsym.Mod()
+        llsym.parse_module(open(ll).read(), mod)
+        m = llsym.Machine(mod)
+        install_natives(m)
+        cxxnatives.install(m)
+        m.step_budget = 10 ** 12
+        binp = m.alloc(len(binv) + 1)
+        _put(m, binp, list(binv))
+        try:
+            sp = llsym.run(m, "@dyn_load", [binp, len(binv)])
+        except (CxxThrow, EngineLimit) as e:
+            res["inconclusive"].append(f"{ob}: loading the reflection stopped: {type(e).__name__}: {e}")
+            return res
+        res["discharged"] += 1
+        snap0, brk0 = dict(m.mem), m.brk
+        tmo = 120000 if tier == "quick" else 600000
+        reached = set()
+
+        def enc_side(spv, which, argp, outp):
+            try:
+                r = llsym.run(m, "@xcan_enc", [spv, which, argp, outp])
+            except CxxThrow as e:
+                return ("throw", str(e)[:60]), None
+            if not isinstance(r, int):
+                raise EngineLimit("xcan_enc result is symbolic")
+            return ("ret", r), ([m.mem[outp + i] for i in range(cxx.FRAME_BYTES)] if r == 1 else None)
+
+        def dec_side(spv, inp, nameo, areap, anp):
+            try:
+                r = llsym.run(m, "@xcan_dec", [spv, inp, nameo, areap, anp])
+            except CxxThrow as e:
+                return ("throw", str(e)[:60]), None, None
+            if not isinstance(r, int):
+                raise EngineLimit("xcan_dec result is symbolic")
+            r = llsym.sext(r, 64)
+            if r < 0:
+                return ("ret", -1), None, None
+            name = bytes(m.mem[nameo + i] for i in range(r)).decode("latin-1")
+            an = m.load(anp, I64)
+            if not isinstance(an, int):
+                raise EngineLimit("dump size is symbolic")
+            return ("ret", r), name, [m.mem[areap + i] for i in range(an)]
+
+        for which, sn in enumerate(structs):
+            b = [x for x in binds if x[0] == sn and x[2] is not None]
+            if not b:
+                continue
+            _, sid, bus = b[0]
+            sch1 = dataclasses.replace(schema, top=sn)
+            T = ("struct", sn)
+            inst = Inst(sch1, [0], tag=f"{sn}.")
+            enum_ok = [z3.Or(*[inst.vars[p_].e == v for _, v in schema.enums[en]]) for p_, (k_, en) in inst.kinds.items() if k_ == "enum"]
+            assume = inst.assume + enum_ok
+            canon = refspec.canon_bytes(sch1, T, inst.value)
+            aligned = field_aligned_bytes(sch1, T, inst.value)
+            feats = {"desc": desc, "struct": sn, "all_widths_byte_multiples": all(w % 8 == 0 for w in leaf_bits(sch1, T, []))}
+            env = {"v": {p: x.e for p, x in inst.vars.items()}}
+            area = []
+            cxx.marshal(sch1, T, inst.value, area, enum_bits=64)
+
+            # ---------------- Encode: same frame from both wrappers
+            m.mem, m.brk = dict(snap0), brk0
+            argp = m.alloc(len(area) + 16)
+            _put(m, argp, area)
+            o1, o2 = m.alloc(32), m.alloc(32)
+            _put(m, o1, [0x55] * 32)
+            _put(m, o2, [0x55] * 32)
+            snap, brk = dict(m.mem), m.brk
+            eng = Engine(timeout_ms=tmo, max_paths=200)
+
+            def enc_body():
+                m.mem, m.brk = dict(snap), brk
+                return enc_side(0, which, argp, o1) + enc_side(sp, which, argp, o2)
+
+            def mk_enc(mdl, which=which, area=area, inst=inst):
+                return dict(base, kind="can_dyn_encode", which=which, value=to_json(concretize(inst.value, mdl)),
+                            area=[x if isinstance(x, int) else mdl.eval(x, model_completion=True).as_long() for x in area])
+
+            try:
+                for pi, (kind, out, pc) in enumerate(eng.explore(enc_body, assume)):
+                    ob = f"{desc}|dynamic|{sn}|encode|path{pi}"
+                    if kind == "exc":
+                        res["inconclusive"].append(f"{ob}: interpreter stopped: {type(out).__name__}: {str(out)[:200]}")
+                        continue
+                    a, fa, bb, fb = out
+                    reached.add((sn, "encode"))
+                    dyn_data = None
+                    if a != bb or (fa is None) != (fb is None):
+                        viol, why = z3.BoolVal(True), f"static {a}{'' if fa is not None else ' no frame'}, dynamic {bb}{'' if fb is not None else ' no frame'}"
+                    elif fa is None:
+                        viol, why = z3.BoolVal(False), "both give no frame"
+                    else:
+                        da, db = fa[6], fb[6]
+                        if not (isinstance(da, int) and isinstance(db, int)):
+                            raise EngineLimit("dlc is symbolic")
+                        dyn_data = [llsym.bv(x, 8) for x in fb[7:7 + min(db, 8)]]
+                        n = 7 + max(min(da, 8), min(db, 8))
+                        viol = z3.Not(z3.And(*[llsym.bv(x, 8) == llsym.bv(y, 8) for x, y in zip(fa[:n], fb[:n])]))
+                        why = "frames differ (bus[4] sid[2] dlc data[dlc])"
+                    env_e = dict(env, dyn=dyn_data, field_aligned=aligned, zip=zip, len=len)
+                    decide(eng, pc, viol, prop="C18", ob_id=ob, res=res, known=known, features=dict(feats, obligation="encode"),
+                           env=env_e, make_replay=mk_enc, what=f"static vs reflection-loaded Can::Encode({sn!r}, v) on [{desc}]: {why}")
+            except EngineLimit as e:
+                res["inconclusive"].append(f"{desc}|dynamic|{sn}|encode: engine limit: {e}")
+            finish_engine(res, eng)
+
+            # ---------------- Decode of the canonical frame: same name and value from both wrappers
+            m.mem, m.brk = dict(snap0), brk0
+            frame = tag_of(bus) + [sid & 0xFF, sid >> 8, len(canon)] + list(canon) + [0] * (8 - len(canon))
+            inp = m.alloc(16)
+            _put(m, inp, frame)
+            n1, n2, a1, a2, c1, c2 = m.alloc(64), m.alloc(64), m.alloc(512), m.alloc(512), m.alloc(8), m.alloc(8)
+            for q in (n1, n2, c1, c2):
+                _put(m, q, [0] * 8)
+            snap, brk = dict(m.mem), m.brk
+            eng = Engine(timeout_ms=tmo, max_paths=200)
+
+            def dec_body():
+                m.mem, m.brk = dict(snap), brk
+                return dec_side(0, inp, n1, a1, c1) + dec_side(sp, inp, n2, a2, c2)
+
+            def mk_dec(mdl, frame=frame):
+                return dict(base, kind="can_dyn_decode", frame=[x if isinstance(x, int) else mdl.eval(x, model_completion=True).as_long() for x in frame])
+
+            try:
+                for pi, (kind, out, pc) in enumerate(eng.explore(dec_body, assume)):
+                    ob = f"{desc}|dynamic|{sn}|decode|path{pi}"
+                    if kind == "exc":
+                        res["inconclusive"].append(f"{ob}: interpreter stopped: {type(out).__name__}: {str(out)[:200]}")
+                        continue
+                    a, na, da, bb, nb_, db = out
+                    reached.add((sn, "decode"))
+                    if a[0] != bb[0] or (na is None) != (nb_ is None) or na != nb_:
+                        viol, why = z3.BoolVal(True), f"static {a} {na!r}, dynamic {bb} {nb_!r}"
+                    elif na is None:
+                        viol, why = z3.BoolVal(False), "both unknown"
+                    elif len(da) != len(db):
+                        viol, why = z3.BoolVal(True), "values differ in shape"
+                    else:
+                        viol = z3.Not(z3.And(*[llsym.bv(x, 8) == llsym.bv(y, 8) for x, y in zip(da, db)])) if da else z3.BoolVal(False)
+                        why = "decoded values differ"
+                    decide(eng, pc, viol, prop="C18", ob_id=ob, res=res, known=known, features=dict(feats, obligation="decode"),
+                           env=env, make_replay=mk_dec, what=f"static vs reflection-loaded Can::Decode(frame of {sn}) on [{desc}]: {why}")
+            except EngineLimit as e:
+                res["inconclusive"].append(f"{desc}|dynamic|{sn}|decode: engine limit: {e}")
+            finish_engine(res, eng)
+
+        # ---------------- any (sid, bus): both wrappers name the same binding or both say unknown (payload bytes zero)
+        m.mem, m.brk = dict(snap0), brk0
+        fr = [z3.BitVec(f"bus{i}", 8) for i in range(4)] + [z3.BitVec("sid_lo", 8), z3.BitVec("sid_hi", 8), z3.BitVec("dlc", 8)] + [0] * 8
+        sidv = z3.Concat(fr[5], fr[4])
+        inp = m.alloc(16)
+        _put(m, inp, fr)
+        n1, n2, a1, a2, c1, c2 = m.alloc(64), m.alloc(64), m.alloc(512), m.alloc(512), m.alloc(8), m.alloc(8)
+        for q in (n1, n2, c1, c2):
+            _put(m, q, [0] * 8)
+        snap, brk = dict(m.mem), m.brk
+        eng = Engine(timeout_ms=tmo, max_paths=600)
+        unjudged = z3.Or(*([sidv == sid for _, sid, bus in binds if bus is None] or [z3.BoolVal(False)]))
+
+        def any_body():
+            m.mem, m.brk = dict(snap), brk
+            return dec_side(0, inp, n1, a1, c1)[:2] + dec_side(sp, inp, n2, a2, c2)[:2]
+
+        def mk_any(mdl):
+            return dict(base, kind="can_dyn_decode", names_only=True, frame=[x if isinstance(x, int) else mdl.eval(x, model_completion=True).as_long() for x in fr])
+
+        try:
+            for pi, (kind, out, pc) in enumerate(eng.explore(any_body, [])):
+                ob = f"{desc}|dynamic|any-frame|path{pi}"
+                if kind == "exc":
+                    res["inconclusive"].append(f"{ob}: interpreter stopped: {type(out).__name__}: {str(out)[:200]}")
+                    continue
+                a, na, bb, nb_ = out
+                reached.add(("any", "x"))
+                same = (a[0] == bb[0] and na == nb_)
+                decide(eng, pc, z3.BoolVal(False) if same else z3.Not(unjudged), prop="C18", ob_id=ob, res=res, known=known,
+                       features={"desc": desc, "obligation": "dispatch"}, env={}, make_replay=mk_any,
+                       what=f"static vs reflection-loaded Can::Decode on [{desc}]: static {a} {na!r}, dynamic {bb} {nb_!r}")
+        except EngineLimit as e:
+            res["inconclusive"].append(f"{desc}|dynamic|any-frame: engine limit: {e}")
+        finish_engine(res, eng)
+        want = {(sn, k) for sn, _, bus in binds if bus is not None and sn in structs for k in ("encode", "decode")} | {("any", "x")}
+        res["vacuity"]["dynamic: entry points reached to their end"] = len(want & reached)
+        res["vacuity"]["dynamic: entry points never reached"] = len(want - reached)
+        if want - reached and not res["violations"] and not res["inconclusive"]:
+            res["inconclusive"].append(f"{desc}|dynamic: never reached the end of {sorted(want - reached)}")
+        res["functions"] = ["can.h:fcp::can::Can::Encode/Decode", "generated:can_static_schema.h:CanStaticSchema::*",
+                            "can_dynamic_schema.h:CanDynamicSchema::Encode/Decode/GetMsgName/GetId/GetBus",
+                            "generated:dynamic.h:DynamicSchema::LoadBinarySchema/EncodeJson/DecodeJson/GetImpls",
+                            "generated:fcp.h:StaticSchema::EncodeJson/DecodeJson + <S>::FromJson/DecodeJson/Encode/Decode",
+                            "nlohmann/json.hpp (interpreted)"]
+        res["sample"] = {"schema": desc, "part": "static vs reflection-loaded", "ir_steps": m.steps, "paths": res["paths"], "queries": res["queries"]}
+    return res
+
+
+def _dispatch(args):
+    return c18_dyn_case(args[1:]) if args[0] == "dyn" else c18_case(args[1:])
+
+
 def run_c18(tier: str) -> int:
     rep = Report("C18", tier)
     fam = c18_family(tier, seed())
@@ -430,12 +664,15 @@ def run_c18(tier: str) -> int:
         "values": "Encode: every in-range value of the bound struct; Decode: the frame of every in-range value, and every "
                   "frame (sid 16 bit, bus 4 bytes, dlc, 8 data bytes all symbolic) for the 'matches no binding' clause",
         "ir": "clang++-14 -std=c++17 -O1 IR of a harness TU including the generated can_static_schema.h / can.h / fcp.h",
-        "outside": "CanDynamicSchema (reflection-loaded; needs nlohmann::json and std::map at run time, see DESIGN 6a), "
-                   "the json <-> typed value conversions (<S>::FromJson, <S>::DecodeJson are modelled), bindings without a "
-                   "bus, renamed bindings ('as'), payloads above 8 bytes, bytes of frame.data beyond dlc",
+        "static_vs_dynamic": "second part (3 schemas quick, all thorough): Can{CanStaticSchema} vs Can{CanDynamicSchema(loaded from the "
+                             "tool's reflection binary)} on real JSON values - same frames for every in-range value, same name and value "
+                             "for the canonical frame, same verdict for every (sid, 4 bus bytes, dlc) with zero payload; nothing modelled",
+        "outside": "part 1 models the json <-> typed value conversions (<S>::FromJson, <S>::DecodeJson; part 2 runs them); bindings "
+                   "without a bus, renamed bindings ('as'), payloads above 8 bytes, bytes of frame.data beyond dlc",
     }
-    rep.stubs = ["<S>::FromJson(json): returns the typed value built by the harness from a symbolic argument area",
-                 "<S>::DecodeJson(): dumps the typed value, returns json null",
+    rep.stubs = ["part 1 only: <S>::FromJson(json) returns the typed value built by the harness from a symbolic argument area; "
+                 "<S>::DecodeJson() dumps the typed value, returns json null",
+                 "part 2: red-black tree insertion without rebalancing, basic_string members, strtol/log2/to_string (verif/cxxnatives.py)",
                  "operator new/delete (fresh 0xAA-filled block)", "basic_string::_M_create/_M_mutate (libstdc++ rules)",
                  "basic_string::compare(const char*) / memcmp (lexicographic, symbolic bytes allowed) / strlen",
                  "__cxa_throw & std::__throw_* end the path as a C++ exception", "llvm.* intrinsics"]
@@ -444,7 +681,9 @@ def run_c18(tier: str) -> int:
                        "a null json is handed through Encode; its copies and destructors are interpreted",
                        "oracle: refspec canonical bytes; bus tag = the bus name followed by NUL bytes up to 4",
                        "counterexamples are replayed through fcp::can::Can and real JSON, compiled with clang++ and g++"]
-    for r in pmap(c18_case, [(s, tier) for s in fam]):
+    dyn = fam if tier == "thorough" else [fam[1], fam[2], fam[4]]
+    cases = [("dyn", s, tier) for s in dyn] + [("static", s, tier) for s in fam]
+    for r in pmap(_dispatch, cases):
         rep.merge(r)
         if rep.red_enough():
             break
